@@ -1061,8 +1061,14 @@ class Process(StateMachine, persistence.Savable, metaclass=ProcessStateMachineMe
                         f'Full Traceback:\n{tb_str}'
                     ) from exc
                 else:
-                    while asyncio.isfuture(result):
-                        result = await result
+                    try:
+                        while asyncio.isfuture(result):
+                            result = await result
+                    except asyncio.CancelledError:
+                        # The action handed back by the call was cancelled (e.g. a pending pause withdrawn by a play, or
+                        # a pending kill dropped because the step excepted): tell the sender instead of leaving it waiting
+                        kiwi_future.cancel()
+                        raise
 
                     kiwi_future.set_result(result)
 
